@@ -115,6 +115,29 @@ def cases(ctx):
                       ["rx", f"{A};255;3;0;{t};1\n"], ["rx", f"{A};255;3;0;{wake};1\n"], ["rx", f"{B};255;3;0;{wake};1\n"]]
             yield {"version": version, "steps": steps}
     ctx.exhaustive["switch-reenter-nonwake-types"] = count
+    # commands whose payload equals what the node itself reported / what is already parked (no unique payloads here:
+    # the model predicts the exact lines), and incoming set / req / child presentation as non-wake messages
+    count = 0
+    pool = ["0", "1"]
+    for version in ("2.0", "2.1", "2.2"):
+        wake = 32 if version == "2.2" else 22
+        ops = [["rx", f"{A};0;1;0;2;0\n"], ["rx", f"{A};0;1;0;2;1\n"], ["rx", f"{A};0;2;0;2;\n"], ["rx", f"{A};1;0;0;3;c1\n"],
+               ["tx", [A, 0, 1, 0, 2, "0"], True], ["tx", [A, 0, 1, 0, 2, "1"], True], ["tx", [A, 0, 1, 1, 2, "1"], True],
+               ["rx", f"{A};255;3;0;{wake};1\n"], ["tx", [B, 0, 1, 0, 2, "1"], True]]
+        for length in range(2, 6):
+            for combo in itertools.product(ops, repeat=length):
+                if not ctx.mine():
+                    continue
+                if ctx.quick and length == 5 and count % 4:
+                    count += 1
+                    continue
+                count += 1
+                steps = [["restore", n, {"type": 17, "version": "2.0", "sleeping": True,
+                                         "children": {"0": [3, "c0", {"2": "0"}], "1": [3, "c1", {}]}}] for n in (A, B)]
+                steps += [list(op) for op in combo] + [["rx", f"{A};255;3;0;{wake};1\n"], ["rx", f"{B};255;3;0;{wake};1\n"]]
+                yield {"version": version, "steps": steps}
+    ctx.exhaustive["reported-value-and-incoming-nonwake"] = count
+    _ = pool
     # random long histories
     for i in range(ctx.pick(300, 8000) // ctx.shard_count):
         version = ("2.0", "2.1", "2.2", "2.2", "1.5")[i % 5]
